@@ -65,8 +65,9 @@ func methodise(p *Program, given map[string][]byte) (map[string][]byte, []string
 	}
 	info := pkg.TypesInfo
 	type cand struct {
-		decl *ast.FuncDecl
-		obj  *types.Func
+		decl    *ast.FuncDecl
+		obj     *types.Func
+		subject int // index of the parameter that becomes the receiver
 	}
 	cands := map[*types.Func]*cand{}
 	for _, file := range pkg.Syntax {
@@ -76,32 +77,110 @@ func methodise(p *Program, given map[string][]byte) (map[string][]byte, []string
 				fd.Name.Name == "init" || fd.Name.Name == "main" || fd.Type.Params == nil || len(fd.Type.Params.List) == 0 {
 				continue
 			}
-			first := fd.Type.Params.List[0]
-			if len(first.Names) != 1 || first.Names[0].Name == "_" {
+			// the subject: the first parameter if it is a pointer to a struct of the package; otherwise (or when the
+			// body stores directly into the fields of exactly one other such parameter and not into those of the
+			// first) that parameter - `resetArchetype(storage *storage, a *archetype)` belongs to the archetype
+			suitable := func(fl *ast.Field) (*types.Pointer, bool) {
+				if len(fl.Names) != 1 || fl.Names[0].Name == "_" {
+					return nil, false
+				}
+				if _, isStar := fl.Type.(*ast.StarExpr); !isStar {
+					return nil, false
+				}
+				pt, ok := info.TypeOf(fl.Type).(*types.Pointer)
+				if !ok {
+					return nil, false
+				}
+				nt, ok := pt.Elem().(*types.Named)
+				if !ok || nt.Obj().Pkg() != pkg.Types || nt.TypeParams().Len() > 0 {
+					return nil, false
+				}
+				if _, isStruct := nt.Underlying().(*types.Struct); !isStruct {
+					return nil, false
+				}
+				if o, _, _ := types.LookupFieldOrMethod(pt, true, pkg.Types, fd.Name.Name); o != nil {
+					return nil, false
+				}
+				return pt, true
+			}
+			storesInto := func(fl *ast.Field) int {
+				po := info.Defs[fl.Names[0]]
+				n := 0
+				ast.Inspect(fd.Body, func(x ast.Node) bool {
+					as, ok := x.(*ast.AssignStmt)
+					if !ok {
+						return true
+					}
+					for _, l := range as.Lhs {
+						if sel, ok := ast.Unparen(l).(*ast.SelectorExpr); ok {
+							if id, ok := ast.Unparen(sel.X).(*ast.Ident); ok && info.Uses[id] == po {
+								n++
+							}
+						}
+					}
+					return true
+				})
+				return n
+			}
+			subject := -1
+			if _, ok := suitable(fd.Type.Params.List[0]); ok {
+				subject = 0
+			}
+			variadic := false
+			if last := fd.Type.Params.List[len(fd.Type.Params.List)-1]; last != nil {
+				_, variadic = last.Type.(*ast.Ellipsis)
+			}
+			if !variadic {
+				var written []int
+				for i, fl := range fd.Type.Params.List {
+					if _, ok := suitable(fl); ok && storesInto(fl) > 0 {
+						written = append(written, i)
+					}
+				}
+				if len(written) == 1 && written[0] != 0 && (subject < 0 || storesInto(fd.Type.Params.List[0]) == 0) {
+					subject = written[0]
+				}
+			}
+			// ... or the one the function is named after (resetArchetype(storage, a))
+			if !variadic {
+				typeName := func(fl *ast.Field) string {
+					if pt, ok := suitable(fl); ok && !pt.Elem().(*types.Named).Obj().Exported() {
+						return strings.ToLower(pt.Elem().(*types.Named).Obj().Name())
+					}
+					return "\x00"
+				}
+				lname := strings.ToLower(fd.Name.Name)
+				firstNamed := subject == 0 && strings.Contains(lname, typeName(fd.Type.Params.List[0]))
+				if !firstNamed {
+					var named []int
+					for i, fl := range fd.Type.Params.List {
+						if tn := typeName(fl); i > 0 && strings.Contains(lname, tn) {
+							named = append(named, i)
+						}
+					}
+					if len(named) == 1 && (subject <= 0 || subject == named[0]) {
+						subject = named[0]
+					}
+				}
+			}
+			if subject < 0 {
 				continue
 			}
-			if _, isStar := first.Type.(*ast.StarExpr); !isStar {
-				continue
+			// parameter index = field index only if no earlier field groups several names
+			grouped := false
+			for i := 0; i <= subject; i++ {
+				if len(fd.Type.Params.List[i].Names) != 1 {
+					grouped = true
+				}
 			}
-			pt, ok := info.TypeOf(first.Type).(*types.Pointer)
-			if !ok {
-				continue
-			}
-			nt, ok := pt.Elem().(*types.Named)
-			if !ok || nt.Obj().Pkg() != pkg.Types || nt.TypeParams().Len() > 0 {
-				continue
-			}
-			if _, isStruct := nt.Underlying().(*types.Struct); !isStruct {
-				continue
-			}
-			if o, _, _ := types.LookupFieldOrMethod(pt, true, pkg.Types, fd.Name.Name); o != nil {
+			if grouped {
 				continue
 			}
 			obj, ok := info.Defs[fd.Name].(*types.Func)
 			if !ok {
 				continue
 			}
-			cands[obj] = &cand{decl: fd, obj: obj}
+			cands[obj] = &cand{decl: fd, obj: obj, subject: subject}
 		}
 	}
 	if len(cands) == 0 {
@@ -126,9 +205,10 @@ func methodise(p *Program, given map[string][]byte) (map[string][]byte, []string
 			}
 			asFun[id] = true
 			sig := fn.Type().(*types.Signature)
+			k := cands[fn].subject
 			usable := len(call.Args) == sig.Params().Len() || (sig.Variadic() && len(call.Args) >= sig.Params().Len()-1)
-			if usable && len(call.Args) > 0 {
-				if tv, ok := info.Types[call.Args[0]]; !ok || tv.IsNil() || tv.Type == nil {
+			if usable && len(call.Args) > k {
+				if tv, ok := info.Types[call.Args[k]]; !ok || tv.IsNil() || tv.Type == nil {
 					usable = false
 				} else if _, isPtr := tv.Type.(*types.Pointer); !isPtr {
 					usable = false
@@ -192,20 +272,43 @@ func methodise(p *Program, given map[string][]byte) (map[string][]byte, []string
 		if b == nil {
 			continue
 		}
-		first := fd.Type.Params.List[0]
-		_, fStart := off(first.Pos())
-		_, fEnd := off(first.End())
-		var after int
-		if len(fd.Type.Params.List) > 1 {
-			_, after = off(fd.Type.Params.List[1].Pos())
-		} else {
-			_, after = off(fd.Type.Params.Closing)
-		}
-		recvText := string(b[fStart:fEnd])
-		repl := "(" + recvText + ") " + fd.Name.Name + "(" + newlines(b, nameOff, fStart) + newlines(b, fEnd, after)
+		k := cd.subject
 		var fileEdits []textEdit
-		fileEdits = append(fileEdits, textEdit{nameOff, after, repl})
 		ok := true
+		flat := func(t string) (string, bool) {
+			if strings.Contains(t, "//") || strings.Contains(t, "/*") {
+				return "", false
+			}
+			return strings.Join(strings.Fields(strings.ReplaceAll(t, "\n", " ")), " "), true
+		}
+		if k == 0 {
+			first := fd.Type.Params.List[0]
+			_, fStart := off(first.Pos())
+			_, fEnd := off(first.End())
+			var after int
+			if len(fd.Type.Params.List) > 1 {
+				_, after = off(fd.Type.Params.List[1].Pos())
+			} else {
+				_, after = off(fd.Type.Params.Closing)
+			}
+			recvText := string(b[fStart:fEnd])
+			repl := "(" + recvText + ") " + fd.Name.Name + "(" + newlines(b, nameOff, fStart) + newlines(b, fEnd, after)
+			fileEdits = append(fileEdits, textEdit{nameOff, after, repl})
+		} else {
+			// the k-th parameter becomes the receiver: its text moves in front of the name, ", pk" is deleted
+			fl := fd.Type.Params.List[k]
+			_, pStart := off(fl.Pos())
+			_, pEnd := off(fl.End())
+			_, prevEnd := off(fd.Type.Params.List[k-1].End())
+			recvText, fine := flat(string(b[pStart:pEnd]))
+			if !fine {
+				continue
+			}
+			_, nameEnd := off(fd.Name.End())
+			fileEdits = append(fileEdits,
+				textEdit{nameOff, nameEnd, "(" + recvText + ") " + fd.Name.Name},
+				textEdit{prevEnd, pEnd, newlines(b, prevEnd, pEnd)})
+		}
 		perFile := map[string][]textEdit{file: fileEdits}
 		for _, call := range calls[cd.obj] {
 			cf, idOff := off(call.Fun.Pos())
@@ -214,17 +317,56 @@ func methodise(p *Program, given map[string][]byte) (map[string][]byte, []string
 				ok = false
 				break
 			}
-			_, a0s := off(call.Args[0].Pos())
-			_, a0e := off(call.Args[0].End())
-			var next int
-			if len(call.Args) > 1 {
-				_, next = off(call.Args[1].Pos())
-			} else {
-				_, next = off(call.Rparen)
+			if k == 0 {
+				_, a0s := off(call.Args[0].Pos())
+				_, a0e := off(call.Args[0].End())
+				var next int
+				if len(call.Args) > 1 {
+					_, next = off(call.Args[1].Pos())
+				} else {
+					_, next = off(call.Rparen)
+				}
+				// (&x).f(..) is written x.f(..): the address is taken implicitly, and the rules read the receiver path
+				if u, isU := call.Args[0].(*ast.UnaryExpr); isU && u.Op == token.AND {
+					if _, isLit := ast.Unparen(u.X).(*ast.CompositeLit); !isLit {
+						_, a0s = off(u.X.Pos())
+					}
+				}
+				perFile[cf] = append(perFile[cf],
+					textEdit{idOff, a0s, "(" + newlines(cb, idOff, a0s)},
+					textEdit{a0e, next, ")." + fd.Name.Name + "(" + newlines(cb, a0e, next)})
+				continue
 			}
+			// f(a0, .., ak, ..) -> (ak).f(a0, .., ..): ak's text is copied in front; it must not itself contain a
+			// call that is being rewritten
+			nested := false
+			ast.Inspect(call.Args[k], func(x ast.Node) bool {
+				if c2, ok := x.(*ast.CallExpr); ok {
+					if id, ok := c2.Fun.(*ast.Ident); ok {
+						if fn, ok := info.Uses[id].(*types.Func); ok && cands[fn] != nil {
+							nested = true
+						}
+					}
+				}
+				return true
+			})
+			_, aks := off(call.Args[k].Pos())
+			_, ake := off(call.Args[k].End())
+			if u, isU := call.Args[k].(*ast.UnaryExpr); isU && u.Op == token.AND {
+				if _, isLit := ast.Unparen(u.X).(*ast.CompositeLit); !isLit {
+					_, aks = off(u.X.Pos())
+				}
+			}
+			_, prevEnd := off(call.Args[k-1].End())
+			argText, fine := flat(string(cb[aks:ake]))
+			if nested || !fine {
+				ok = false
+				break
+			}
+			_, idEnd := off(call.Fun.End())
 			perFile[cf] = append(perFile[cf],
-				textEdit{idOff, a0s, "(" + newlines(cb, idOff, a0s)},
-				textEdit{a0e, next, ")." + fd.Name.Name + "(" + newlines(cb, a0e, next)})
+				textEdit{idOff, idEnd, "(" + argText + ")." + fd.Name.Name},
+				textEdit{prevEnd, ake, newlines(cb, prevEnd, ake)})
 		}
 		if !ok {
 			continue
@@ -249,5 +391,16 @@ func methodise(p *Program, given map[string][]byte) (map[string][]byte, []string
 		out[f] = b
 	}
 	sort.Strings(names)
+	if os.Getenv("ARK_DEBUG_CANON") == "2" {
+		for f, b := range out {
+			for i, line := range strings.Split(string(b), "\n") {
+				for _, n := range names {
+					if strings.Contains(line, n+"(") {
+						fmt.Fprintf(os.Stderr, "%s:%d: %s\n", f, i+1, line)
+					}
+				}
+			}
+		}
+	}
 	return out, names
 }
